@@ -30,7 +30,8 @@ def generate(R, tier):
                 base = list(R.choice(pool))
                 bad, _ = D.corrupt(R, base)
                 files.append(bad)
-        yield {"stream": "history", "files": files, "unreadable": [k for k in range(len(files)) if R.random() < 0.05]}
+        yield {"stream": "history", "files": files, "unreadable": [k for k in range(len(files)) if R.random() < 0.05],
+               "threaded": tier == "thorough" and i % 5 == 0}
         if i % 20 == 0:
             base = R.choice(pool)
             for k in range(len(base) + 1):
@@ -82,9 +83,47 @@ def impl_init():
     work = os.path.join(os.path.dirname(os.path.dirname(os.path.dirname(os.path.abspath(__file__)))), "work")
     os.makedirs(work, exist_ok=True)
 
+    import sys
+    import threading
+
     def impl(c):
         db = Database()
         versions = {0: U.dump_db(db)}
+        torn = []
+        races = []
+        stop = threading.Event()
+        reader = None
+        if c.get("threaded"):
+            # a REAL concurrent reader: snapshots the shared database as fast as it can while the loads run;
+            # every snapshot must be one of the complete versions (old or new), never a mixture
+            fresh_all = []
+            for lines in c["files"]:
+                try:
+                    fresh_all.append(U.dump_db(U.load_db("\n".join(lines) + "\n")))
+                except DatabaseError:
+                    fresh_all.append(None)
+            allowed = [versions[0]] + [f for f in fresh_all if f is not None]
+            old_interval = sys.getswitchinterval()
+            sys.setswitchinterval(1e-6)
+
+            keys = ["mtu", "tcp_req", "tcp_resp", "http_req", "http_resp", "len"]
+            allowed_by_key = {k: [a[k] for a in allowed] for k in keys}
+
+            def read_loop():
+                # each single call (one section listing, or len) must show the complete old or the complete new contents;
+                # successive calls may of course straddle the moment of the swap
+                while not stop.is_set():
+                    try:
+                        d = U.dump_db(db)
+                    except Exception as e:      # e.g. KeyError from a swap between two reads of the mapping inside one call
+                        races.append(type(e).__name__)
+                        continue
+                    for k in keys:
+                        if d[k] not in allowed_by_key[k]:
+                            torn.append(k)
+                            return
+            reader = threading.Thread(target=read_loop, daemon=True)
+            reader.start()
         out = []
         path = os.path.join(work, "c11-%d.watched.fp" % os.getpid())
         visible = 0
@@ -127,6 +166,14 @@ def impl_init():
                 res["failed_load_changed_db"] = True
             snap()
             out.append([res, obs])
+        if reader is not None:
+            stop.set()
+            reader.join(5)
+            sys.setswitchinterval(old_interval)
+            if torn:
+                out.append([{"concurrent_reader_saw_torn_state": True}, ["TORN"]])
+            elif races:
+                out[-1][0]["bytecode_level_race_in_reader"] = races[0]
         try:
             os.unlink(path)
         except OSError:
@@ -157,6 +204,8 @@ def canon(c, mr):
 def outcome(c, ir, mr):
     if not isinstance(mr, list):
         return "model-error"
+    if isinstance(ir, list) and any(isinstance(x[0], dict) and "bytecode_level_race_in_reader" in x[0] for x in ir):
+        return "reader thread hit a bytecode-level race (outside the quantifier)"
     ok = sum(1 for r, _ in mr if "ok" in r)
     return "loads:%d ok/%d failed" % (min(ok, 3), min(len(c["files"]) - ok, 3))
 
@@ -169,6 +218,9 @@ def judge(c, ir, mr):
     if not isinstance(ir, list):
         return {"kind": "history raised", "why": str(ir)}
     want = canon(c, mr)
+    if len(ir) > len(want):
+        return {"kind": "a concurrent reader thread saw a database that is neither the complete old nor the complete new contents", "why": str(ir[-1])[:200],
+                "judged_by": "C11_refines"}
     for k, ((ri, oi), (rw, ow)) in enumerate(zip(ir, want)):
         if "TORN" in oi:
             return {"kind": "a reader saw a database that is neither the complete old nor the complete new contents", "why": "load %d: observations %s" % (k + 1, oi),
@@ -177,6 +229,7 @@ def judge(c, ir, mr):
             return {"kind": "contents after a successful load differ from a fresh load of that file (accumulation?)", "why": "load %d" % (k + 1), "judged_by": "C11_no_accumulation"}
         if ri.get("failed_load_changed_db"):
             return {"kind": "a failed load changed the loaded database", "why": "load %d" % (k + 1), "judged_by": "C11_failed_load_preserves"}
+        ri = {k2: v2 for k2, v2 in ri.items() if k2 != "bytecode_level_race_in_reader"}    # outside the property's quantifier (see ASSUMPTIONS); counted in outcomes
         if ri != rw:
             return {"kind": "load outcome differs", "why": "load %d: impl %s model %s" % (k + 1, ri, rw)}
         # every observation during the load shows the old version; the last one (after return) the final version
